@@ -47,6 +47,35 @@ def main():
             st.store_blob(k, v)
         # registrations between write and read: a file codec for str (must not take over), then a high-priority codec
         codec_registry().add_file_codec(UpperStrCodec())
+        # ... and user file codecs that handle a NEW type but reuse a reference that is already registered (a subclass of
+        # a built-in codec that does not override ref()): what the built-in codec wrote is still read by the built-in codec
+        from dds.codecs.builtins import StringLocalFileCodec, BytesFileCodec
+
+        class JsonDictCodec(StringLocalFileCodec):
+            def handled_types(self):
+                return [STU.from_type(dict)]
+
+            def serialize_into(self, blob, loc):
+                with open(str(loc), "wb") as f:
+                    f.write(json.dumps(blob).encode())
+
+            def deserialize_from(self, loc):
+                with open(str(loc), "rb") as f:
+                    return json.loads(f.read().decode())
+
+        class ReversedBytesCodec(BytesFileCodec):
+            def handled_types(self):
+                return [STU.from_type(memoryview)]
+
+            def deserialize_from(self, loc):
+                with open(str(loc), "rb") as f:
+                    return f.read()[::-1]
+
+        for extra in (JsonDictCodec(), ReversedBytesCodec()):
+            try:
+                codec_registry().add_file_codec(extra)
+            except BaseException:
+                pass  # refusing the registration is fine
 
         def same(a, b):
             if isinstance(a, pd.DataFrame):
@@ -55,7 +84,11 @@ def main():
 
         for k, v in vals.items():
             evals += 1
-            got = st.fetch_blob(k)
+            try:
+                got = st.fetch_blob(k)
+            except BaseException as e:
+                violations.append({"what": "%s: reading back raised %s: %s" % (k, type(e).__name__, str(e)[:80])})
+                continue
             if not same(v, got):
                 violations.append({"what": "%s: read back %r, wrote %r" % (k, str(got)[:60], str(v)[:60])})
             meta = json.load(open(os.path.join(tmp, "int", "blobs", k + ".meta")))
@@ -71,7 +104,11 @@ def main():
         st.store_blob("s_after", "written later")
         for k in ("s_ascii", "s_uni"):
             evals += 1
-            if st.fetch_blob(k) != vals[k]:  # ... but what was written before is read with the codec that wrote it
+            try:
+                again = st.fetch_blob(k)
+            except BaseException as e:
+                again = "<%s>" % type(e).__name__
+            if again != vals[k]:  # ... but what was written before is read with the codec that wrote it
                 violations.append({"what": "%s: read back with a codec registered after the write" % k})
         # fresh process (default registry): everything written with built-in codecs is readable
         code = (
@@ -103,7 +140,7 @@ def main():
                     violations.append({"what": "%s: fresh process read %s, expected %s" % (k, out.get(k), exp)})
     finally:
         shutil.rmtree(tmp, ignore_errors=True)
-    print(json.dumps({"scope": "%d values (str/bytes/None/objects/pandas, incl. empty, non-ASCII, large) x {same process, after 2 registrations, fresh process}" % len(vals),
+    print(json.dumps({"scope": "%d values (str/bytes/None/objects/pandas, incl. empty, non-ASCII, large) x {same process, after 4 registrations (incl. codecs reusing a registered reference for a new type), fresh process}" % len(vals),
                       "evaluations": evals, "distinct_nontrivial": len(vals), "rule": "one case per (value, reading situation)",
                       "samples": [{"value": "s_uni", "situation": "after add_file_codec + add_codec for str"}], "violations": violations[:10], "known_hits": []}))
 
